@@ -32,6 +32,7 @@ func (w *World) runClient() {
 		return
 	}
 	w.cli = cli
+	vsched.Release(&w.pubEng)
 	w.logf("client started")
 	vsched.Block("client:wait-stop", func() bool { return w.clientStop })
 	w.logf("client stop called at step %d", w.s.Step())
@@ -54,6 +55,7 @@ func (w *World) userClientDial(ui int, op *UserOp) {
 	}
 	ps := w.peers[idx]
 	ps.dialAsked = true
+	vsched.Acquire(&w.pubEng)
 	w.clientCalls++
 	defer func() { w.clientCalls-- }()
 	var c gnet.Conn
